@@ -37,7 +37,7 @@ func runC11(c *Ctx) {
 		"for the requested address LAN.Contains, not the network address, not the broadcast address; for the sequential search the cursor idiom nextIP < broadcast starting at FirstIP. " +
 		"(ack) the acknowledgement section of handleRequest is entered from each operation arm only with the lease in state Discover or Allocated established by a dominating test, the address acknowledged is lease.Addr.IP, taken from IPOffer only on the Discover path, and the refusal condition of the selecting arm contains the hardware, transaction-id, offered-address and leased-address mismatches. " +
 		"(free) DECLINE frees a lease only when server id, address and hardware address match; expiry frees by DHCPExpiry. (interleavings, two clauses) an address on offer to two clients is acknowledged once: findByIP sees outstanding offers or the commit of an offer is preceded by findByIP(lease.IPOffer) and a NAK when another lease holds it; handleDiscover keeps an old IPOffer only for an outstanding offer (or every site that frees a lease clears it). Not decided: uniqueness over arbitrary interleavings beyond these clauses, timing."
-	r.Rule("offer", "addresses are offered only if free in the lease table, unknown to the session and inside the subnet", 14)
+	r.Rule("offer", "addresses are offered only if free in the lease table, unknown to the session and inside the subnet", 15)
 	r.Rule("ack", "acknowledgements require an outstanding offer or lease of the same client, address and transaction", 9)
 	r.Rule("free", "leases are freed only by their owner's DECLINE or by expiry", 4)
 
@@ -45,6 +45,47 @@ func runC11(c *Ctx) {
 	if alloc == nil {
 		r.Fatal("allocIPOffer not found")
 		return
+	}
+	// the broadcast address the offer guards compare with is computed from the prefix length bit by bit: the value stored
+	// in dhcpSubnet.broadcast depends, as data, on the subnet's address and on Prefix.Bits (a value whose host part is set
+	// in whole bytes under a loop counted by the prefix length has only a control dependence on it)
+	if ns := c.P.Func(dhcpRel, "newSubnet"); ns != nil {
+		found := false
+		core.EachInstr(ns, func(i ssa.Instruction) {
+			s, ok := i.(*ssa.Store)
+			if !ok {
+				return
+			}
+			fa, isFA := s.Addr.(*ssa.FieldAddr)
+			if !isFA || fieldOwner(fa) != "dhcp4_spoofer.dhcpSubnet.broadcast" {
+				return
+			}
+			found = true
+			bits, addr := false, false
+			for v := range dataSlice(ns, s.Val) {
+				if call, isCall := v.(*ssa.Call); isCall {
+					if cal := call.Common().StaticCallee(); cal != nil {
+						switch core.FuncName(cal) {
+						case "(net/netip.Prefix).Bits", "net.CIDRMask":
+							bits = true
+						case "(net/netip.Prefix).Addr":
+							addr = true
+						}
+					}
+				}
+			}
+			st := core.Proved
+			if !bits || !addr {
+				st = core.Violated
+			}
+			r.Add(core.Obligation{Rule: "offer", Key: "offer newSubnet broadcast address computed from address and prefix length", Func: core.FuncName(ns), Pos: c.P.Pos(core.PosOf(i)), Status: st,
+				Basis: "data slice of the stored value contains Prefix.Addr and Prefix.Bits/CIDRMask", Detail: fmt.Sprintf("the value stored in dhcpSubnet.broadcast has data dependence on the subnet address: %v, on the prefix length: %v; a broadcast address that does not depend on the prefix length bit by bit is wrong for prefix lengths that are not a multiple of 8, and the offer guard 'not the broadcast address' then protects the wrong address", addr, bits)})
+		})
+		if !found {
+			r.Add(core.Obligation{Rule: "offer", Key: "offer newSubnet broadcast address computed from address and prefix length", Func: core.FuncName(ns), Status: core.Undecided, Detail: "no store to dhcpSubnet.broadcast in newSubnet"})
+		}
+	} else {
+		r.Fatal("newSubnet not found")
 	}
 	nReq, nSeq := 0, 0
 	core.EachInstr(alloc, func(i ssa.Instruction) {
@@ -519,7 +560,7 @@ func runC12(c *Ctx) {
 		"(options) newSubnet builds server-id, mask (from LAN.Bits()), router and DNS options from those fields; OFFER and ACK add the lease time of the lease's subnet; (reply) OFFER/ACK are encoded into the request buffer as BootReply with nil chaddr/xid (echoing the request's) and yiaddr = the offered / leased address, in the order of the client's parameter list after the mandatory mask-router prefix (C03); " +
 		"(destination) the reply is broadcast exactly when the request has no source address or the broadcast flag. Not decided: per-history claims (which subnet a client was in when), NAK-or-silence over all interleavings."
 	r.Rule("subnet", "netfilter subnet iff the MAC is captured", 3)
-	r.Rule("config", "provenance of the two subnet configurations", 8)
+	r.Rule("config", "provenance of the two subnet configurations; the saved configuration is kept only when equal to the configured one", 13)
 	r.Rule("options", "provenance of the reply options", 6)
 	r.Rule("reply", "OFFER/ACK echo the transaction and carry the lease address", 8)
 	r.Rule("destination", "broadcast iff no source address or broadcast flag", 1)
@@ -574,12 +615,14 @@ func runC12(c *Ctx) {
 		core.EachInstr(fn, func(i ssa.Instruction) {
 			if rt, isR := i.(*ssa.Return); isR && len(rt.Results) == 1 && strings.Contains(norm(rt.Results[0]), "recv.table[") {
 				gs := guardsOf(i)
-				if hasGuard(gs, `subnet\.SubnetConfig\.LAN==φ\.SubnetConfig\.LAN\)$`) && hasGuard(gs, `^bytes\.Equal\(.*\.Addr\.MAC,arg1\)$`) {
+				// the subnet itself, not one of its attributes: the two subnets may have the same prefix (the
+				// default configuration gives the netfilter prefix the length of the home LAN)
+				if hasGuard(gs, `\.subnet==φ\)?$`) && hasGuard(gs, `^bytes\.Equal\(.*\.Addr\.MAC,arg1\)$`) {
 					ok = true
 				}
 			}
 		})
-		add("subnet", "subnet existing lease reused only for the same subnet and hardware address", fn, nil, ok, "return of the existing lease under LAN equal and MAC equal", "an existing lease is returned without comparing its subnet and hardware address")
+		add("subnet", "subnet existing lease reused only for the same subnet and hardware address", fn, nil, ok, "return of the existing lease under lease.subnet == selected subnet and MAC equal", "an existing lease is returned without comparing its subnet (the subnet itself, not its prefix: with a netfilter prefix as long as the home LAN both subnets have the same prefix and a captured client keeps its home lease, router and DNS) and hardware address")
 	}
 	// config provenance
 	if fn := c.P.Method(dhcpRel, "Config", "New"); fn != nil {
@@ -598,6 +641,49 @@ func runC12(c *Ctx) {
 		})
 		for k, w := range want {
 			add("config", "config "+strings.TrimPrefix(k, "local("), fn, nil, got[k] == w, w, k+" is "+got[k]+", expected "+w)
+		}
+	}
+	// the configuration read from the lease file replaces the configured one only when equal to it in everything a reply
+	// carries: prefix address and length, router, DNS, server identifier
+	if fn := c.P.Func(dhcpRel, "configChanged"); fn != nil {
+		compared := map[string]bool{}
+		side := func(v ssa.Value) (string, string) {
+			t := norm(v)
+			for _, a := range []string{"local(config)", "arg0"} {
+				if strings.Contains(t, a) {
+					return "A", strings.ReplaceAll(t, a, "_")
+				}
+			}
+			for _, b := range []string{"local(current)", "arg1"} {
+				if strings.Contains(t, b) {
+					return "B", strings.ReplaceAll(t, b, "_")
+				}
+			}
+			return "", t
+		}
+		core.EachInstr(fn, func(i ssa.Instruction) {
+			bo, ok := i.(*ssa.BinOp)
+			if !ok || (bo.Op != token.NEQ && bo.Op != token.EQL) {
+				return
+			}
+			sx, fx := side(bo.X)
+			sy, fy := side(bo.Y)
+			if sx != "" && sy != "" && sx != sy && fx == fy {
+				compared[fx] = true
+			}
+		})
+		whole := compared["_.LAN"] || compared["(net/netip.Prefix).Masked(_.LAN)"]
+		for _, w := range []struct {
+			name string
+			ok   bool
+		}{
+			{"prefix address", whole || compared["(net/netip.Prefix).Addr(_.LAN)"]},
+			{"prefix length", whole || compared["(net/netip.Prefix).Bits(_.LAN)"]},
+			{"router", compared["_.DefaultGW"]},
+			{"DNS server", compared["_.DNSServer"]},
+			{"server identifier", compared["_.DHCPServer"]},
+		} {
+			add("config", "config configChanged compares the "+w.name, fn, nil, w.ok, "comparison of the like field of both configurations", "configChanged does not compare the "+w.name+" of the configured subnet with the one read from the lease file: a restart with a different value keeps serving the old one")
 		}
 	}
 	// options provenance
